@@ -2887,7 +2887,9 @@ Lemma fremove_fsetk p : forall (f : forest) K, p <> [] -> fremove p (fsetk p K f
 Proof.
   induction p as [|i p IH]; intros f K Hp; [congruence|]. destruct p as [|j p].
   - cbn [fremove fsetk]. apply del_nth_upd_nth.
-  - rewrite !fremove_cons_ne by discriminate. cbn [fsetk]. rewrite upd_nth_upd_nth.
+  - rewrite !fremove_cons_ne by discriminate.
+    change (fsetk (i :: j :: p) K f) with (upd_nth i (fun t => set_kids t (fsetk (j :: p) K (tkids t))) f).
+    rewrite upd_nth_upd_nth.
     apply upd_nth_ext. intros t. rewrite set_kids_set_kids, tkids_set_kids, IH by discriminate. reflexivity.
 Qed.
 
@@ -3044,4 +3046,947 @@ Proof.
       destruct (fkids q (tkids s)) as [kq|] eqn:Ekq; [|discriminate]. cbn in Hnm. inversion Hnm; subst nm.
       rewrite (fkids_fappend_self q _ k0 kq Ekq). cbn. rewrite map_app. reflexivity.
     + rewrite <- app_assoc. exact Hnd.
+Qed.
+
+Lemma wf_t_append t q k kq :
+  wf_t t -> wf_t k -> fkids q (tkids t) = Some kq -> (forall k', In k' kq -> tname k' <> tname k) ->
+  wf_t (t_append q k t).
+Proof.
+  intros Hwf Hk Hkq Hfresh. unfold t_append. apply wf_t_set_kids. destruct q as [|j q].
+  - cbn in Hkq. inversion Hkq; subst kq. cbn [fappend]. destruct (wf_t_kids _ Hwf) as [Hn Hf]. split.
+    + rewrite map_app. cbn [map]. apply NoDup_app_snoc; [exact Hn|].
+      intros Hin. apply in_map_iff in Hin as [k' [E Hk']]. apply (Hfresh k' Hk'). exact E.
+    + rewrite Forall_app. split; [exact Hf|constructor; [exact Hk|constructor]].
+  - eapply wf_fappend; [apply wf_t_kids; exact Hwf|exact Hk|discriminate|exact Hkq|exact Hfresh].
+Qed.
+
+Definition ins_all (Q : list str) (K : list tree) (tb : table) : table :=
+  fold_left (fun tb k => insert_last tb Q (rows_from Q k)) K tb.
+Definition app_all (q : ref) (K : list tree) (s : tree) : tree := fold_left (fun s k => t_append q k s) K s.
+
+Lemma app_all_facts q Q : forall K (s : tree) nm,
+  wf_t s -> tpath s q = Some Q -> qnames q s = Some nm -> NoDup (nm ++ map tname K) -> Forall wf_t K ->
+  wf_t (app_all q K s) /\ rows (app_all q K s) = ins_all Q K (rows s)
+  /\ (forall z P, tpath s z = Some P -> tpath (app_all q K s) z = Some P).
+Proof.
+  induction K as [|k K IH]; intros s nm Hwf HQ Hnm Hnd HK; [cbn; auto|].
+  inversion HK as [|? ? Hk HK']; subst. cbn [app_all ins_all fold_left].
+  unfold qnames in Hnm. destruct (fkids q (tkids s)) as [kq|] eqn:Ekq; [|discriminate]. cbn in Hnm.
+  inversion Hnm; subst nm.
+  assert (Hfresh : forall k', In k' kq -> tname k' <> tname k).
+  { intros k' Hk' E. eapply (NoDup_app_disj _ _ (tname k) Hnd); [rewrite <- E; apply in_map; exact Hk'|left; reflexivity]. }
+  assert (Hwf1 : wf_t (t_append q k s)) by (eapply wf_t_append; eassumption).
+  assert (Hfr : forall z P, tpath s z = Some P -> tpath (t_append q k s) z = Some P).
+  { intros z P Hz. unfold tpath, t_append. rewrite tname_set_kids, tkids_set_kids. apply fpath_fappend_frame. exact Hz. }
+  destruct (IH (t_append q k s) (map tname kq ++ [tname k]) Hwf1 (Hfr _ _ HQ)) as [H1 [H2 H3]].
+  - unfold qnames, t_append. rewrite tkids_set_kids, (fkids_fappend_self q _ k kq Ekq). cbn. rewrite map_app. reflexivity.
+  - rewrite <- app_assoc. exact Hnd.
+  - exact HK'.
+  - split; [exact H1|]. split.
+    + fold (app_all q K (t_append q k s)). fold (ins_all Q K (insert_last (rows s) Q (rows_from Q k))).
+      rewrite H2, (rows_t_append s q k Q Hwf HQ). reflexivity.
+    + intros z P Hz. apply H3. apply Hfr. exact Hz.
+Qed.
+
+Lemma subseq_ins_all Q K : forall tb, subseq tb (ins_all Q K tb).
+Proof.
+  induction K as [|k K IH]; intros tb; [apply subseq_refl|]. cbn [ins_all fold_left].
+  eapply subseq_trans; [apply subseq_insert_last|apply IH].
+Qed.
+
+(* the items Spec.edit_cs attaches for merge_children are the child subtrees, in order *)
+Lemma attach_items_children Q n : forall K (tb : table),
+  (forall k, In k K -> has tb (Q ++ [tname k]) = false) -> NoDup (map tname K) ->
+  forall PX, length PX = n ->
+  attach_items tb Q false (map (fun k => (S n, rows_from PX k)) K) = Some (ins_all Q K tb).
+Proof.
+  induction K as [|k K IH]; intros tb Hhas Hnd PX Hn; [reflexivity|]. subst n.
+  cbn [map attach_items ins_all fold_left]. unfold reroot. cbn [fst snd Nat.sub]. rewrite Nat.sub_0_r.
+  rewrite (reroot_rows_from k PX Q false). rewrite rows_from_eq at 1. cbn [rpath fst].
+  rewrite (Hhas k (or_introl eq_refl)). rewrite <- rows_from_eq.
+  cbn [map] in Hnd. inversion Hnd as [|? ? Hnotin Hnd']; subst.
+  apply IH; [|exact Hnd'|reflexivity].
+  intros k' Hk'. rewrite has_insert_last, (Hhas k' (or_intror Hk')), has_rows_child. cbn [orb].
+  apply str_eqb_neq. intros E. apply Hnotin. rewrite E. apply in_map. exact Hk'.
+Qed.
+
+Lemma frows_child_rows PX : forall ks,
+  filter (fun r : row => Nat.eqb (length (rpath r)) (S (length PX))) (frows PX ks)
+  = map (fun k => (PX ++ [tname k], ttag k, tattrs k)) ks.
+Proof.
+  induction ks as [|k ks IH]; [reflexivity|]. rewrite frows_cons, filter_app, IH. cbn [map].
+  rewrite rows_from_eq. cbn [filter rpath fst]. rewrite app_length. cbn [length]. rewrite Nat.add_1_r, Nat.eqb_refl.
+  cbn [app]. f_equal. rewrite filter_none; [reflexivity|].
+  intros r Hr. apply frows_under in Hr as [u [rs [_ Hrs]]]. rewrite Hrs, !app_length. cbn [length].
+  apply Nat.eqb_neq. lia.
+Qed.
+
+Lemma filter_filter {A} (g h : A -> bool) l : filter g (filter h l) = filter (fun x => h x && g x) l.
+Proof. induction l as [|x l IH]; cbn; [reflexivity|]. destruct (h x); cbn; [destruct (g x)|]; rewrite IH; reflexivity. Qed.
+
+Lemma t_child_rows t p x PX :
+  wf_t t -> p <> [] -> tget t p = Some x -> tpath t p = Some PX ->
+  filter (fun r : row => under PX r && Nat.eqb (length (rpath r)) (S (length PX))) (rows t)
+  = map (fun k => (PX ++ [tname k], ttag k, tattrs k)) (tkids x).
+Proof.
+  intros Hwf Hp Hx HP. destruct (t_sub_rows t p x PX Hwf Hp Hx HP) as [P0 [HP0 Hsub]].
+  rewrite <- filter_filter. fold (sub_rows (rows t) PX). rewrite Hsub, rows_from_eq, <- HP0.
+  cbn [filter rpath fst]. replace (Nat.eqb (length PX) (S (length PX))) with false by (symmetry; apply Nat.eqb_neq; lia).
+  apply frows_child_rows.
+Qed.
+
+Lemma t_sub_rows_child t p x PX k :
+  wf_t t -> p <> [] -> tget t p = Some x -> tpath t p = Some PX -> In k (tkids x) ->
+  sub_rows (rows t) (PX ++ [tname k]) = rows_from PX k.
+Proof.
+  intros Hwf Hp Hx HP Hk. apply In_nth_error in Hk as [i Hi].
+  assert (Hks : fkids p (tkids t) = Some (tkids x)).
+  { rewrite fkids_fget by exact Hp. unfold tget in Hx. rewrite Hx. reflexivity. }
+  assert (Hne : p ++ [i] <> []) by (destruct p; discriminate).
+  assert (Hg : tget t (p ++ [i]) = Some k) by (eapply fget_snoc; eassumption).
+  assert (HPk : tpath t (p ++ [i]) = Some (PX ++ [tname k])) by (eapply fpath_snoc; eassumption).
+  destruct (t_sub_rows t (p ++ [i]) k _ Hwf Hne Hg HPk) as [P0 [HP0 Hsub]].
+  apply app_inj_tail in HP0 as [-> _]. exact Hsub.
+Qed.
+
+Lemma NoDup_app_intro {A} (a b : list A) :
+  NoDup a -> NoDup b -> (forall x, In x a -> In x b -> False) -> NoDup (a ++ b).
+Proof.
+  induction a as [|x a IH]; intros Ha Hb Hd; [exact Hb|]. inversion Ha; subst. cbn. constructor.
+  - intros Hin. apply in_app_or in Hin as [Hin|Hin]; [contradiction|]. apply (Hd x); [left; reflexivity|exact Hin].
+  - apply IH; [assumption|exact Hb|]. intros y Hy1 Hy2. apply (Hd y); [right; exact Hy1|exact Hy2].
+Qed.
+
+Lemma wf_t_In t k : wf_t t -> In k (tkids t) -> wf_t k.
+Proof. intros H Hk. destruct (wf_t_kids _ H) as [_ Hf]. rewrite Forall_forall in Hf. apply Hf. exact Hk. Qed.
+
+Lemma wf_tget t p x : wf_t t -> tget t p = Some x -> wf_t x.
+Proof.
+  unfold tget. intros Hwf. generalize (wf_t_kids _ Hwf). generalize (tkids t). clear.
+  induction p as [|i p IH]; intros f Hf H; [discriminate|]. cbn [fget] in H.
+  destruct (nth_error f i) as [u|] eqn:Eu; [|discriminate].
+  assert (Hu : wf_t u) by (destruct Hf as [_ Hf]; rewrite Forall_forall in Hf; apply Hf; eapply nth_error_In; exact Eu).
+  destruct p as [|j p]; [inversion H; subst; exact Hu|]. eapply IH; [apply wf_t_kids; exact Hu|exact H].
+Qed.
+
+Lemma child_refs_nth x n i c : nth_error (child_refs x n) i = Some c -> c = x ++ [i].
+Proof.
+  unfold child_refs. rewrite nth_error_map. destruct (nth_error (seq 0 n) i) as [j|] eqn:E; [|discriminate].
+  cbn. intros H; inversion H; subst. f_equal. f_equal.
+  assert (Hi : i < length (seq 0 n)) by (apply nth_error_Some; congruence).
+  rewrite seq_length in Hi. rewrite (nth_error_nth' _ 0) in E by (rewrite seq_length; exact Hi).
+  rewrite seq_nth in E by exact Hi. inversion E. reflexivity.
+Qed.
+
+Lemma length_child_refs x n : length (child_refs x n) = n.
+Proof. unfold child_refs. rewrite map_length, seq_length. reflexivity. Qed.
+
+(* DESIGN.md "C08_merge_children": shift with merge_children, destination absent *)
+Theorem C08_merge_children_stmt sep tsep fl t p x comps PX :
+  f_mc fl = true -> f_ml fl = false -> f_dc fl = false -> wf_t t ->
+  p <> [] -> tget t p = Some x -> tpath t p = Some PX ->
+  (forall cc, In cc comps -> cc <> []) ->
+  pfx PX (tname t :: comps) = false ->
+  has (rows t) ((tname t :: comps) ++ [tname x]) = false ->
+  (forall k, In k (tkids x) -> has (rows t) ((tname t :: comps) ++ [tname k]) = false) ->
+  exists t2 rest,
+    cs_core (cfg_same false sep tsep fl) [t] (0 :: p) (TNew comps) = (t2 :: rest, None)
+    /\ rows t2 = minus (ins_all (tname t :: comps) (tkids x)
+                                (minus_strict (ensure (rows t) [tname t] comps) PX)) PX
+    /\ edit_cs false true fl (rows t) (rows t) PX (Some ((tname t :: comps) ++ [tname x])) = PNext (rows t2) (rows t2)
+    /\ subseq (minus (rows t) PX) (rows t2).
+Proof.
+  intros Hmc Hml Hdc Hwf Hp Hx HPX Hne Hnotin Habs Hkabs. set (Q := tname t :: comps) in *.
+  set (c := cfg_same false sep tsep fl).
+  destruct (add_walk_spec comps [t] [0] [] [tname t] (wf_f_single _ Hwf) ltac:(discriminate) eq_refl Hne)
+    as [f' [q [Ha [Hwf' [Hlen [Hrows [Hq [Hpre [Hfr1 Hfr2]]]]]]]]].
+  destruct (forest1 f' Hlen) as [t1 ->].
+  destruct q as [|q0 q]; [discriminate|]. cbn [is_prefix] in Hpre. rewrite andb_true_r in Hpre.
+  apply Nat.eqb_eq in Hpre. subst q0.
+  assert (Hwf1 : wf_t t1) by (destruct Hwf' as [_ Hf]; inversion Hf; assumption).
+  assert (Hr1 : rows t1 = ensure (rows t) [tname t] comps).
+  { unfold frows in Hrows. cbn [flat_map] in Hrows. rewrite !app_nil_r in Hrows. exact Hrows. }
+  assert (HQ1 : tpath t1 q = Some Q) by exact Hq.
+  assert (HPX1 : tpath t1 p = Some PX) by exact (Hfr2 (0 :: p) PX HPX).
+  assert (Hpq : is_prefix p q = false).
+  { destruct (is_prefix p q) eqn:E; [|reflexivity].
+    rewrite (fpath_prefix_mono _ _ _ _ _ _ E HPX1 HQ1) in Hnotin. discriminate. }
+  assert (Hx1 : tget t1 p = Some x).
+  { unfold tget. rewrite <- (fget_cons0 p t1 []) by exact Hp. apply Hfr1.
+    - rewrite is_prefix_cons. cbn. exact Hpq.
+    - rewrite fget_cons0 by exact Hp. exact Hx. }
+  set (K := tkids x). set (s := t_strip p t1).
+  assert (Hwfs : wf_t s) by (apply wf_t_set_kids, wf_fsetk_nil, wf_t_kids; exact Hwf1).
+  assert (HQs : tpath s q = Some Q).
+  { unfold tpath, s, t_strip. rewrite tname_set_kids, tkids_set_kids, fpath_fsetk by (left; exact Hpq). exact HQ1. }
+  assert (HPXs : tpath s p = Some PX).
+  { unfold tpath, s, t_strip. rewrite tname_set_kids, tkids_set_kids, fpath_fsetk by (right; reflexivity). exact HPX1. }
+  assert (Hrs : rows s = minus_strict (rows t1) PX) by (apply rows_t_strip; assumption).
+  assert (Hks : fkids p (tkids t1) = Some K).
+  { rewrite fkids_fget by exact Hp. unfold tget in Hx1. rewrite Hx1. reflexivity. }
+  assert (Hwfx : wf_t x) by (apply (wf_tget t p x Hwf Hx)).
+  destruct (fkids_of_fpath _ _ _ _ HQs) as [kq Hkq].
+  assert (Hhas_s : forall k, In k K -> has (rows s) (Q ++ [tname k]) = false).
+  { intros k Hk. rewrite Hrs. unfold minus_strict. apply has_filter_false.
+    rewrite Hr1, has_ensure_long; [apply Hkabs; exact Hk|]. unfold Q. rewrite app_length. cbn [length]. lia. }
+  assert (Hnd : NoDup (map tname kq ++ map tname K)).
+  { apply NoDup_app_intro.
+    - apply (wf_fkids q (tkids s) kq (wf_t_kids _ Hwfs) Hkq).
+    - apply (wf_t_kids _ Hwfx).
+    - intros n Hn1 Hn2. apply in_map_iff in Hn2 as [k [<- Hk]].
+      pose proof (Hhas_s k Hk) as Hh. rewrite (t_has_child s q Q kq (tname k) Hwfs HQs Hkq) in Hh.
+      apply in_map_iff in Hn1 as [k' [E Hk']].
+      assert (existsb (fun k0 => str_eqb (tname k0) (tname k)) kq = true)
+        by (eapply existsb_true; [exact Hk'|apply str_eqb_eq; exact E]). congruence. }
+  assert (Hqn : qnames q s = Some (map tname kq)) by (unfold qnames; rewrite Hkq; reflexivity).
+  assert (HKwf : Forall wf_t K) by (apply (wf_t_kids _ Hwfx)).
+  destruct (app_all_facts q Q K s (map tname kq) Hwfs HQs Hqn Hnd HKwf) as [Hwfn [Hrn Hfrn]].
+  set (sn := app_all q K s) in *.
+  assert (HPXn : tpath sn p = Some PX) by (apply Hfrn; exact HPXs).
+  destruct (fpath_fget _ _ _ _ Hp HPXn) as [y Hy].
+  assert (Hrows2 : rows (t_remove p sn) = minus (ins_all Q K (minus_strict (ensure (rows t) [tname t] comps) PX)) PX).
+  { rewrite (rows_t_remove sn p PX Hwfn Hp HPXn), Hrn, Hrs, Hr1. reflexivity. }
+  exists (t_remove p sn), [set_kids y []]. split; [|split; [exact Hrows2|split]].
+  - unfold cs_core. change (dpiece c) with 0. rewrite Ha. change (f_mc (c_fl c)) with (f_mc fl). rewrite Hmc.
+    unfold attach. change (c_copy c) with false. cbn [orb andb].
+    rewrite fkids_cons0, Hks. change (f_dc (c_fl c)) with (f_dc fl). rewrite Hdc.
+    assert (Ht1 : t1 = t_setk p K s).
+    { unfold t_setk, s, t_strip. rewrite set_kids_set_kids, tkids_set_kids, fsetk_fsetk, (fsetk_id p _ _ Hks).
+      symmetry. apply set_kids_id. }
+    pose proof (mc_loop_spec (nroots c) [] p q Hp Hpq K s (child_refs (0 :: p) (length K)) (fun z => z) (map tname kq)
+                  (length_child_refs _ _)) as Hloop.
+    rewrite <- Ht1 in Hloop.
+    assert (Hloop' := Hloop (fun i c0 Hc0 => child_refs_nth _ _ _ _ Hc0) (ex_intro _ PX HPXs) (ex_intro _ Q HQs) Hqn Hnd).
+    fold (app_all q K s) in Hloop'. fold sn in Hloop'.
+    match goal with |- context [mc_loop ?a ?b ?c0 ?d ?e ?g ?h] =>
+      replace (mc_loop a b c0 d e g h) with ([t_setk p [] sn], @Ret ref (0 :: p)) by (symmetry; exact Hloop') end.
+    assert (Hgm : tget (t_setk p [] sn) p = Some (set_kids y [])).
+    { unfold tget, t_setk. rewrite tkids_set_kids. apply fget_fsetk_self. exact Hy. }
+    pose proof (detach_in_tree (nroots c) (t_setk p [] sn) [] p (set_kids y []) Hp Hgm) as Hm.
+    match goal with |- context [move ?a ?b ?c0 ?d] =>
+      replace (move a b c0 d) with
+        (MvOk ((t_remove p (t_setk p [] sn) :: []) ++ [set_kids y []]) (track (0 :: p) [1])) by (symmetry; exact Hm) end.
+    cbn [app]. f_equal. f_equal. unfold t_remove, t_setk. rewrite set_kids_set_kids, tkids_set_kids.
+    rewrite fremove_fsetk by exact Hp. reflexivity.
+  - rewrite Hrows2.
+    destruct (t_sub_rows t p x PX Hwf Hp Hx HPX) as [P0 [HP0 Hsub]].
+    destruct (tpath_ext _ _ _ HPX) as [rest0 [HPe Hl]].
+    assert (Hk2 : Nat.eqb (length PX) 1 = false).
+    { apply Nat.eqb_neq. rewrite HPe. cbn [length]. destruct p; [congruence|cbn in Hl; lia]. }
+    assert (Hneq : PX <> Q ++ [tname x]).
+    { intros E. rewrite <- E in Habs. rewrite (t_has_row t p PX Hp HPX) in Habs. discriminate. }
+    unfold edit_cs. rewrite Hk2. cbn [negb andb].
+    rewrite removelast_last, !last_last. rewrite HP0 at 1. rewrite last_last, str_eqb_refl. cbn [negb].
+    replace (path_eqb (Q ++ [tname x]) PX) with false.
+    2: { symmetry. destruct (path_eqb (Q ++ [tname x]) PX) eqn:E; [|reflexivity]. apply path_eqb_eq in E. congruence. }
+    rewrite (pfx_snoc_false PX Q (tname x) Hnotin Hneq). cbn [andb]. rewrite Habs.
+    replace (Nat.ltb (length (Q ++ [tname x])) 2) with false.
+    2: { symmetry. apply Nat.ltb_ge. rewrite app_length. unfold Q. cbn [length]. lia. }
+    rewrite Hmc, Hdc.
+    assert (He : ensure (rows t) [] Q = ensure (rows t) [tname t] comps).
+    { unfold Q. cbn [ensure app]. rewrite has_root. reflexivity. }
+    rewrite He.
+    rewrite (t_child_rows t p x PX Hwf Hp Hx HPX), map_map. cbn [rpath fst].
+    rewrite (map_ext_in _ (fun k => (S (length PX), rows_from PX k))).
+    2: { intros k Hk. f_equal. apply (t_sub_rows_child t p x PX k Hwf Hp Hx HPX Hk). }
+    rewrite (attach_items_children Q (length PX) K _) with (PX := PX); [reflexivity| |apply (wf_t_kids _ Hwfx)|reflexivity].
+    intros k Hk. unfold minus_strict. apply has_filter_false.
+    rewrite has_ensure_long; [apply Hkabs; exact Hk|]. unfold Q. rewrite app_length. cbn [length]. lia.
+  - rewrite Hrows2. rewrite <- (minus_minus_strict (rows t) PX). apply subseq_filter_mono.
+    eapply subseq_trans; [|apply subseq_ins_all]. apply subseq_filter_mono. apply subseq_ensure.
+Qed.
+
+(* ============================================================================================== *)
+(* Part 14.  delete_children together with copy: the copy is made first, its children are dropped,  *)
+(* the bare new node is attached; the original keeps its children.                                 *)
+
+Lemma fget_piece a (t : tree) rest p : p <> [] -> fget (length a :: p) (a ++ t :: rest) = fget p (tkids t).
+Proof. intros Hp. cbn [fget]. rewrite nth_error_mid. destruct p; [congruence|reflexivity]. Qed.
+
+Lemma fremove_piece a (t : tree) rest p :
+  p <> [] -> fremove (length a :: p) (a ++ t :: rest) = a ++ t_remove p t :: rest.
+Proof. intros Hp. rewrite fremove_cons_ne by exact Hp. apply upd_nth_mid. Qed.
+
+Lemma detach_in_piece nr a t rest p x :
+  p <> [] -> tget t p = Some x ->
+  move nr (a ++ t :: rest) (length a :: p) None
+  = MvOk ((a ++ t_remove p t :: rest) ++ [x]) (track (length a :: p) [length (a ++ t_remove p t :: rest)]).
+Proof.
+  intros Hp Hx. unfold move. rewrite fget_piece by exact Hp. unfold tget in Hx. rewrite Hx.
+  destruct p as [|j p]; [congruence|]. rewrite fremove_piece by discriminate. reflexivity.
+Qed.
+
+(* del x.children for a node of any piece *)
+Lemma del_children_go_piece nr a ks : forall (t : tree) rest p done trk,
+  p <> [] -> (exists P, tpath t p = Some P) ->
+  exists trk',
+    del_children_go nr (length ks) (a ++ t_setk p ks t :: rest ++ done) (length a :: p) trk
+    = MvOk (a ++ t_setk p [] t :: rest ++ done ++ ks) trk'
+    /\ (forall z, (is_prefix p z = false \/ z = p) -> trk (length a :: z) = length a :: z -> trk' (length a :: z) = length a :: z)
+    /\ (forall i z, i < length a -> trk (i :: z) = i :: z -> trk' (i :: z) = i :: z).
+Proof.
+  induction ks as [|k0 ks IH]; intros t rest p done trk Hp [P HP].
+  - exists trk. cbn. rewrite app_nil_r. split; [reflexivity|]. split; auto.
+  - cbn [length del_children_go].
+    set (t1 := t_setk p (k0 :: ks) t).
+    assert (Hg : tget t1 (p ++ [0]) = Some k0).
+    { unfold tget, t1, t_setk. rewrite tkids_set_kids. eapply fget_first_child; [exact HP|exact Hp]. }
+    assert (Hne : p ++ [0] <> []) by (destruct p; discriminate).
+    pose proof (detach_in_piece nr a t1 (rest ++ done) (p ++ [0]) k0 Hne Hg) as Hm.
+    change ((length a :: p) ++ [0]) with (length a :: p ++ [0]).
+    match goal with |- context [move ?x1 ?x2 ?x3 ?x4] =>
+      replace (move x1 x2 x3 x4) with
+        (MvOk ((a ++ t_remove (p ++ [0]) t1 :: rest ++ done) ++ [k0])
+              (track (length a :: p ++ [0]) [length (a ++ t_remove (p ++ [0]) t1 :: rest ++ done)]))
+        by (symmetry; exact Hm) end.
+    assert (Ht1 : t_remove (p ++ [0]) t1 = t_setk p ks t).
+    { unfold t_remove, t1, t_setk. rewrite set_kids_set_kids, tkids_set_kids, fremove_first_child. reflexivity. }
+    rewrite Ht1.
+    set (tk := track (length a :: p ++ [0]) [length (a ++ t_setk p ks t :: rest ++ done)]).
+    replace ((a ++ t_setk p ks t :: rest ++ done) ++ [k0]) with (a ++ t_setk p ks t :: rest ++ (done ++ [k0]))
+      by (rewrite <- !app_assoc; cbn [app]; rewrite <- !app_assoc; reflexivity).
+    destruct (IH t rest p (done ++ [k0]) (fun z => tk (trk z)) Hp (ex_intro _ P HP)) as [trk' [Hgo [Hk1 Hk2]]].
+    exists trk'. split; [rewrite Hgo; rewrite <- !app_assoc; reflexivity|]. split.
+    + intros z Hz Htz. apply Hk1; [exact Hz|]. cbn beta. rewrite Htz. unfold tk, track.
+      rewrite is_prefix_cons, Nat.eqb_refl. cbn [andb]. rewrite (is_prefix_child_false p z 0 Hz).
+      unfold adj'. rewrite adj_cons_same by exact Hne.
+      pose proof (adj'_child_removed p z 0 Hz) as E. unfold adj' in E.
+      destruct (adj (p ++ [0]) z); cbn [option_map]; [rewrite E|]; reflexivity.
+    + intros i z Hi Htz. apply Hk2; [exact Hi|]. cbn beta. rewrite Htz. unfold tk, track.
+      rewrite is_prefix_cons. replace (Nat.eqb (length a) i) with false by (symmetry; apply Nat.eqb_neq; lia).
+      cbn [andb]. unfold adj'. cbn [adj]. destruct (p ++ [0]) eqn:E; [destruct p; discriminate|].
+      replace (Nat.eqb i (length a)) with false by (symmetry; apply Nat.eqb_neq; lia). reflexivity.
+Qed.
+
+Lemma t_setk_id p t ks : fkids p (tkids t) = Some ks -> t_setk p ks t = t.
+Proof. intros H. unfold t_setk. rewrite (fsetk_id p _ _ H). apply set_kids_id. Qed.
+
+Record dc_copy (c : cfg) : Prop := {
+  dcc_copy : c_copy c = true;
+  dcc_mc : f_mc (c_fl c) = false;
+  dcc_ml : f_ml (c_fl c) = false;
+  dcc_dc : f_dc (c_fl c) = true }.
+
+Lemma fkids_retag p : forall (ks : forest), fkids p (map retag ks) = option_map (map retag) (fkids p ks).
+Proof.
+  induction p as [|i p IH]; intros ks; [reflexivity|]. cbn [fkids]. rewrite nth_error_map.
+  destruct (nth_error ks i) as [t|]; [|reflexivity]. cbn [option_map]. rewrite tkids_retag. apply IH.
+Qed.
+
+Lemma fpath_retag p : forall pre (ks : forest), fpath pre p (map retag ks) = fpath pre p ks.
+Proof.
+  induction p as [|i p IH]; intros pre ks; [reflexivity|]. cbn [fpath]. rewrite nth_error_map.
+  destruct (nth_error ks i) as [t|]; [|reflexivity]. cbn [option_map]. rewrite tname_retag, tkids_retag. apply IH.
+Qed.
+
+Lemma attach_dc_copy c t p q x ks :
+  dc_copy c -> p <> [] -> tget t p = Some x -> (exists PX, tpath t p = Some PX) ->
+  fkids q (tkids t) = Some ks -> (forall k, In k ks -> tname k <> tname x) ->
+  exists rest,
+  attach c false [t] (0 :: p) (Some (0 :: q)) = (t_append q (set_kids (retag x) []) t :: rest, None).
+Proof.
+  intros [Hc Hmc Hml Hdc] Hp Hx [PX HPX] Hks Hfresh. unfold attach. rewrite Hc, Hml, Hdc. cbn [orb andb negb].
+  unfold copy_node. cbn [nth_error length option_map]. change ([t] ++ [retag t]) with [t; retag t].
+  set (cp := retag t).
+  assert (Hxc : tget cp p = Some (retag x)).
+  { unfold tget, cp. rewrite tkids_retag, fget_retag. unfold tget in Hx. rewrite Hx. reflexivity. }
+  assert (HPc : tpath cp p = Some PX).
+  { unfold tpath, cp. rewrite tname_retag, tkids_retag, fpath_retag. exact HPX. }
+  assert (Hkc : fkids p (tkids cp) = Some (tkids (retag x))).
+  { rewrite fkids_fget by exact Hp. unfold tget in Hxc. rewrite Hxc. reflexivity. }
+  unfold del_children.
+  replace (fkids (1 :: p) [t; cp]) with (Some (tkids (retag x))) by (symmetry; exact Hkc).
+  destruct (del_children_go_piece (nroots c) [t] (tkids (retag x)) cp [] p [] (fun z => z) Hp (ex_intro _ PX HPc))
+    as [trk' [Hgo [Hk1 Hk2]]].
+  rewrite (t_setk_id p cp _ Hkc) in Hgo. cbn [app length] in Hgo.
+  match goal with |- context [del_children_go ?x1 ?x2 ?x3 ?x4 ?x5] =>
+    replace (del_children_go x1 x2 x3 x4 x5) with (MvOk (t :: t_setk p [] cp :: tkids (retag x)) trk')
+      by (symmetry; exact Hgo) end.
+  cbn [length] in Hk1, Hk2.
+  rewrite (Hk1 p (or_intror eq_refl) eq_refl). cbn [option_map]. rewrite (Hk2 0 q ltac:(lia) eq_refl).
+  set (c1 := t_setk p [] cp). set (y := set_kids (retag x) []).
+  assert (Hy : tget c1 p = Some y).
+  { unfold tget, c1, t_setk. rewrite tkids_set_kids. apply fget_fsetk_self. exact Hxc. }
+  unfold move.
+  assert (Hg : fget (1 :: p) (t :: c1 :: tkids (retag x)) = Some y).
+  { cbn [fget nth_error]. destruct p as [|j p]; [congruence|]. exact Hy. }
+  rewrite Hg. cbn [is_prefix Nat.eqb andb].
+  replace (fkids (0 :: q) (t :: c1 :: tkids (retag x))) with (Some ks) by (symmetry; exact Hks).
+  unfold y at 1. rewrite tname_set_kids, tname_retag. rewrite dup_child_false by exact Hfresh.
+  assert (Hprot : protected (nroots c) (1 :: p) = false) by (destruct p; [congruence|reflexivity]).
+  rewrite Hprot.
+  assert (Hadj : adj' (1 :: p) (0 :: q) = 0 :: q) by (unfold adj'; destruct p; [congruence|reflexivity]).
+  rewrite Hadj.
+  assert (Hrem : fremove (1 :: p) (t :: c1 :: tkids (retag x)) = t :: t_remove p c1 :: tkids (retag x))
+    by (destruct p; [congruence|reflexivity]).
+  rewrite Hrem.
+  replace (fkids (0 :: q) (t :: t_remove p c1 :: tkids (retag x))) with (Some ks) by (symmetry; exact Hks).
+  eexists. reflexivity.
+Qed.
+
+(* DESIGN.md "C08_delete_children" for copy_nodes *)
+Theorem C08_delete_children_copy_stmt sep tsep fl t p x comps PX :
+  f_mc fl = false -> f_ml fl = false -> f_dc fl = true -> wf_t t ->
+  p <> [] -> tget t p = Some x -> tpath t p = Some PX ->
+  (forall cc, In cc comps -> cc <> []) ->
+  pfx PX (tname t :: comps) = false ->
+  has (rows t) ((tname t :: comps) ++ [tname x]) = false ->
+  exists t2 rest,
+    cs_core (cfg_same true sep tsep fl) [t] (0 :: p) (TNew comps) = (t2 :: rest, None)
+    /\ rows t2 = insert_last (ensure (rows t) [tname t] comps) (tname t :: comps)
+                             [((tname t :: comps) ++ [tname x], None, tattrs x)]
+    /\ edit_cs true true fl (rows t) (rows t) PX (Some ((tname t :: comps) ++ [tname x])) = PNext (rows t2) (rows t2)
+    /\ subseq (rows t) (rows t2).
+Proof.
+  intros Hmc Hml Hdc Hwf Hp Hx HPX Hne Hnotin Habs. set (Q := tname t :: comps) in *.
+  set (c := cfg_same true sep tsep fl).
+  destruct (add_walk_spec comps [t] [0] [] [tname t] (wf_f_single _ Hwf) ltac:(discriminate) eq_refl Hne)
+    as [f' [q [Ha [Hwf' [Hlen [Hrows [Hq [Hpre [Hfr1 Hfr2]]]]]]]]].
+  destruct (forest1 f' Hlen) as [t1 ->].
+  destruct q as [|q0 q]; [discriminate|]. cbn [is_prefix] in Hpre. rewrite andb_true_r in Hpre.
+  apply Nat.eqb_eq in Hpre. subst q0.
+  assert (Hwf1 : wf_t t1) by (destruct Hwf' as [_ Hf]; inversion Hf; assumption).
+  assert (Hr1 : rows t1 = ensure (rows t) [tname t] comps).
+  { unfold frows in Hrows. cbn [flat_map] in Hrows. rewrite !app_nil_r in Hrows. exact Hrows. }
+  assert (HQ1 : tpath t1 q = Some Q) by exact Hq.
+  assert (HPX1 : tpath t1 p = Some PX) by exact (Hfr2 (0 :: p) PX HPX).
+  assert (Hpq : is_prefix p q = false).
+  { destruct (is_prefix p q) eqn:E; [|reflexivity].
+    rewrite (fpath_prefix_mono _ _ _ _ _ _ E HPX1 HQ1) in Hnotin. discriminate. }
+  assert (Hx1 : tget t1 p = Some x).
+  { unfold tget. rewrite <- (fget_cons0 p t1 []) by exact Hp. apply Hfr1.
+    - rewrite is_prefix_cons. cbn. exact Hpq.
+    - rewrite fget_cons0 by exact Hp. exact Hx. }
+  destruct (fkids_of_fpath _ _ _ _ HQ1) as [ks Hks].
+  assert (Hfresh : forall k, In k ks -> tname k <> tname x).
+  { apply existsb_name_iff. rewrite <- (t_has_child t1 q Q ks (tname x) Hwf1 HQ1 Hks).
+    rewrite Hr1, has_ensure_long; [exact Habs|]. unfold Q. rewrite app_length. cbn [length]. lia. }
+  destruct (attach_dc_copy c t1 p q x ks) as [rest Hatt]; try assumption.
+  { split; assumption || reflexivity. }
+  { exists PX. exact HPX1. }
+  assert (Hrows2 : rows (t_append q (set_kids (retag x) []) t1)
+                   = insert_last (ensure (rows t) [tname t] comps) Q [(Q ++ [tname x], None, tattrs x)]).
+  { rewrite (rows_t_append t1 q _ Q Hwf1 HQ1), Hr1, rows_from_eq, tname_set_kids, ttag_set_kids, tattrs_set_kids,
+      tkids_set_kids, tname_retag. destruct x; reflexivity. }
+  exists (t_append q (set_kids (retag x) []) t1), rest. split; [|split; [exact Hrows2|split]].
+  - unfold cs_core. change (dpiece c) with 0. rewrite Ha. change (f_mc (c_fl c)) with (f_mc fl). rewrite Hmc.
+    exact Hatt.
+  - rewrite Hrows2.
+    destruct (t_sub_rows t p x PX Hwf Hp Hx HPX) as [P0 [HP0 Hsub]].
+    assert (Hk : length PX = S (length P0)) by (rewrite HP0, app_length; cbn; lia).
+    assert (Hneq : PX <> Q ++ [tname x]).
+    { intros E. rewrite <- E in Habs. rewrite (t_has_row t p PX Hp HPX) in Habs. discriminate. }
+    unfold edit_cs. cbn [negb andb].
+    rewrite removelast_last, !last_last. rewrite HP0 at 1. rewrite last_last, str_eqb_refl. cbn [negb].
+    replace (path_eqb (Q ++ [tname x]) PX) with false.
+    2: { symmetry. destruct (path_eqb (Q ++ [tname x]) PX) eqn:E; [|reflexivity]. apply path_eqb_eq in E. congruence. }
+    rewrite (pfx_snoc_false PX Q (tname x) Hnotin Hneq). cbn [andb]. rewrite Habs.
+    replace (Nat.ltb (length (Q ++ [tname x])) 2) with false.
+    2: { symmetry. apply Nat.ltb_ge. rewrite app_length. unfold Q. cbn [length]. lia. }
+    rewrite Hmc, Hml, Hdc.
+    assert (He : ensure (rows t) [] Q = ensure (rows t) [tname t] comps).
+    { unfold Q. cbn [ensure app]. rewrite has_root. reflexivity. }
+    rewrite He. cbn [attach_items]. unfold reroot. cbn [fst snd].
+    rewrite (t_row_at t p x PX Hwf Hp Hx HPX). cbn [map rpath rtag rattrs fst snd].
+    rewrite Hk. cbn [Nat.sub]. rewrite Nat.sub_0_r.
+    replace (skipn (length P0) PX) with [tname x] by (rewrite HP0, skipn_app_exact; reflexivity).
+    rewrite has_ensure_long by (unfold Q; rewrite app_length; cbn [length]; lia). rewrite Habs.
+    reflexivity.
+  - rewrite Hrows2. apply untouched_copy.
+Qed.
+
+(* ============================================================================================== *)
+(* Part 15.  replace_logic: the loop that re-appends the right siblings (modify.py:1355-1361).      *)
+(* Seen from the parent, each iteration moves one child to the end of the children list.            *)
+
+Definition adj_idx (e k : nat) : nat := if Nat.ltb e k then Nat.pred k else k.
+
+(* fuel = number of indices left *)
+Fixpoint mte_go {A} (fuel : nat) (cur : list A) (idxs : list nat) : list A :=
+  match fuel, idxs with
+  | S f, e :: r => match nth_error cur e with
+                   | Some k => mte_go f (del_nth e cur ++ [k]) (map (adj_idx e) r)
+                   | None => cur
+                   end
+  | _, _ => cur
+  end.
+Definition mte_run {A} (cur : list A) (idxs : list nat) : list A := mte_go (length idxs) cur idxs.
+
+Fixpoint mte_ok_go (fuel n : nat) (idxs : list nat) : Prop :=
+  match fuel, idxs with
+  | S f, e :: r => e < n /\ ~ In e r /\ mte_ok_go f n (map (adj_idx e) r)
+  | _, _ => True
+  end.
+Definition mte_ok (n : nat) (idxs : list nat) : Prop := mte_ok_go (length idxs) n idxs.
+
+Lemma mte_run_cons {A} (cur : list A) e r k :
+  nth_error cur e = Some k -> mte_run cur (e :: r) = mte_run (del_nth e cur ++ [k]) (map (adj_idx e) r).
+Proof. intros H. unfold mte_run. cbn [length mte_go]. rewrite H, map_length. reflexivity. Qed.
+
+Lemma mte_ok_cons n e r : mte_ok n (e :: r) -> e < n /\ ~ In e r /\ mte_ok n (map (adj_idx e) r).
+Proof. unfold mte_ok. cbn [length mte_ok_go]. rewrite map_length. auto. Qed.
+
+Lemma fget_fsetk_child par : forall (f : forest) ks e pre P,
+  fpath pre par f = Some P -> fget (par ++ [e]) (fsetk par ks f) = nth_error ks e.
+Proof.
+  induction par as [|i par IH]; intros f ks e pre P HP.
+  - cbn. destruct (nth_error ks e); reflexivity.
+  - cbn [fpath] in HP. destruct (nth_error f i) as [t|] eqn:Et; [|discriminate].
+    cbn [app fsetk fget]. rewrite nth_error_upd_nth, Nat.eqb_refl, Et. cbn [option_map].
+    rewrite tkids_set_kids. destruct (par ++ [e]) eqn:E; [destruct par; discriminate|]. rewrite <- E.
+    eapply IH. exact HP.
+Qed.
+
+Lemma fremove_fsetk_child par : forall (f : forest) ks e,
+  fremove (par ++ [e]) (fsetk par ks f) = fsetk par (del_nth e ks) f.
+Proof.
+  induction par as [|i par IH]; intros f ks e; [reflexivity|].
+  cbn [app fsetk]. rewrite fremove_cons_ne by (destruct par; discriminate).
+  rewrite upd_nth_upd_nth. apply upd_nth_ext. intros t. rewrite set_kids_set_kids, tkids_set_kids, IH. reflexivity.
+Qed.
+
+Lemma fappend_fsetk_self par : forall (f : forest) ks k,
+  fappend par k (fsetk par ks f) = fsetk par (ks ++ [k]) f.
+Proof.
+  induction par as [|i par IH]; intros f ks k; [reflexivity|].
+  cbn [fappend fsetk]. rewrite upd_nth_upd_nth. apply upd_nth_ext. intros t.
+  rewrite set_kids_set_kids, tkids_set_kids, IH. reflexivity.
+Qed.
+
+Lemma fkids_fsetk_self par : forall (f : forest) ks pre P,
+  fpath pre par f = Some P -> fkids par (fsetk par ks f) = Some ks.
+Proof.
+  induction par as [|i par IH]; intros f ks pre P HP; [reflexivity|].
+  cbn [fpath] in HP. destruct (nth_error f i) as [t|] eqn:Et; [|discriminate].
+  cbn [fsetk fkids]. rewrite nth_error_upd_nth, Nat.eqb_refl, Et. cbn [option_map]. rewrite tkids_set_kids.
+  eapply IH. exact HP.
+Qed.
+
+Lemma adj'_sibling p : forall e e', e <> e' -> adj' (p ++ [e]) (p ++ [e']) = p ++ [adj_idx e e'].
+Proof.
+  induction p as [|a p IH]; intros e e' Hne.
+  - unfold adj', adj_idx. cbn [app adj]. destruct (Nat.eqb e' e) eqn:E; [apply Nat.eqb_eq in E; congruence|].
+    reflexivity.
+  - cbn [app]. unfold adj'. rewrite adj_cons_same by (destruct p; discriminate).
+    specialize (IH e e' Hne). unfold adj' in IH.
+    destruct (adj (p ++ [e]) (p ++ [e'])); cbn [option_map]; rewrite IH; reflexivity.
+Qed.
+
+Lemma NoDup_names_move (cur : list tree) e k :
+  nth_error cur e = Some k -> NoDup (map tname cur) -> NoDup (map tname (del_nth e cur ++ [k])).
+Proof.
+  revert e; induction cur as [|c cur IH]; intros e He Hn; [destruct e; discriminate|].
+  cbn [map] in Hn. inversion Hn as [|? ? Hnotin Hn']; subst. destruct e as [|e]; cbn in *.
+  - inversion He; subst. rewrite map_app. cbn [map]. apply NoDup_app_snoc; assumption.
+  - constructor.
+    + rewrite map_app. cbn [map]. intros Hin. apply in_app_or in Hin as [Hin|[E|[]]].
+      * apply Hnotin. clear -Hin. revert e Hin. induction cur as [|u cur IHc]; intros e Hin; [exact Hin|].
+        destruct e; cbn in *; [right; exact Hin|]. destruct Hin as [E|Hin]; [left; exact E|right; eapply IHc; exact Hin].
+      * apply Hnotin. rewrite <- E. apply in_map. eapply nth_error_In. exact He.
+    + apply IH; assumption.
+Qed.
+
+Lemma del_nth_last {A} (l : list A) x : del_nth (length l) (l ++ [x]) = l.
+Proof. induction l as [|y l IH]; cbn; [reflexivity|]. rewrite IH. reflexivity. Qed.
+
+Lemma nth_error_del_names (cur : list tree) e k k' :
+  NoDup (map tname cur) -> nth_error cur e = Some k -> In k' (del_nth e cur) -> tname k' <> tname k.
+Proof.
+  revert e; induction cur as [|c cur IH]; intros e Hn He Hin; [destruct e; discriminate|].
+  cbn [map] in Hn. inversion Hn as [|? ? Hnotin Hn']; subst. destruct e as [|e]; cbn in *.
+  - inversion He; subst. intros E. apply Hnotin. rewrite <- E. apply in_map. exact Hin.
+  - destruct Hin as [<-|Hin].
+    + intros E. apply Hnotin. rewrite E. apply in_map. eapply nth_error_In. exact He.
+    + eapply IH; eassumption.
+Qed.
+
+(* the tail of the loop: every remaining right sibling is detached and re-appended *)
+Lemma rp_tail nr a par : nr <= S (length a) ->
+  forall idxs (t : tree) rest cur sibs trk fr,
+  (exists P, tpath t par = Some P) -> NoDup (map tname cur) ->
+  mte_ok (length cur) idxs ->
+  map trk sibs = map (fun e => length a :: par ++ [e]) idxs ->
+  exists rest',
+    rp_loop nr (a ++ t_setk par cur t :: rest) false sibs trk fr (length a :: par)
+    = (a ++ t_setk par (mte_run cur idxs) t :: rest', None).
+Proof.
+  intros Hnr idxs0. remember (length idxs0) as n0 eqn:Hn0. revert idxs0 Hn0.
+  induction n0 as [|n0 IH]; intros idxs0 Hn0 t rest cur sibs trk fr [P HP] Hnd Hok Htrk.
+  - destruct idxs0; [|discriminate]. destruct sibs; [|discriminate]. exists rest. reflexivity.
+  - destruct idxs0 as [|e idxs]; [discriminate|]. cbn [length] in Hn0. injection Hn0 as Hn0.
+    destruct sibs as [|s sibs]; [discriminate|]. cbn [rp_loop]. cbn [map] in Htrk. injection Htrk as Htrk0 Htrk.
+    apply mte_ok_cons in Hok as [He [Hnin Hok]].
+    destruct (nth_error cur e) as [k|] eqn:Ek; [|apply nth_error_None in Ek; lia].
+    rewrite (mte_run_cons cur e idxs k Ek).
+    rewrite Htrk0.
+    set (T1 := t_setk par cur t). set (ka := length a).
+    assert (Hne : par ++ [e] <> []) by (destruct par; discriminate).
+    assert (Hg : tget T1 (par ++ [e]) = Some k).
+    { unfold tget, T1, t_setk. rewrite tkids_set_kids. rewrite (fget_fsetk_child par _ cur e _ _ HP). exact Ek. }
+    pose proof (detach_in_piece nr a T1 rest (par ++ [e]) k Hne Hg) as Hm. fold ka in Hm.
+    match goal with |- context [move ?x1 ?x2 ?x3 None] =>
+      replace (move x1 x2 x3 None) with
+        (MvOk ((a ++ t_remove (par ++ [e]) T1 :: rest) ++ [k])
+              (track (ka :: par ++ [e]) [length (a ++ t_remove (par ++ [e]) T1 :: rest)]))
+        by (symmetry; exact Hm) end.
+    assert (HT2 : t_remove (par ++ [e]) T1 = t_setk par (del_nth e cur) t).
+    { unfold t_remove, T1, t_setk. rewrite set_kids_set_kids, tkids_set_kids, fremove_fsetk_child. reflexivity. }
+    rewrite HT2. set (T2 := t_setk par (del_nth e cur) t).
+    set (F1 := a ++ T2 :: rest). set (N := length F1).
+    set (tkA := track (ka :: par ++ [e]) [N]).
+    assert (HN : ka < N) by (unfold N, F1, ka; rewrite app_length; cbn; lia).
+    assert (HtkA_self : tkA (ka :: par ++ [e]) = [N]).
+    { unfold tkA, track. rewrite is_prefix_refl, skipn_all. apply app_nil_r. }
+    assert (HtkA_par : tkA (ka :: par) = ka :: par).
+    { unfold tkA, track. rewrite is_prefix_cons, Nat.eqb_refl. cbn [andb].
+      rewrite (is_prefix_child_false par par e (or_intror eq_refl)).
+      unfold adj'. rewrite adj_cons_same by exact Hne.
+      pose proof (adj'_child_removed par par e (or_intror eq_refl)) as E. unfold adj' in E.
+      destruct (adj (par ++ [e]) par); cbn [option_map]; [rewrite E|]; reflexivity. }
+    change (ka :: par ++ [e]) with (ka :: (par ++ [e])) in *.
+    cbn beta iota. rewrite HtkA_self, HtkA_par.
+    (* second assignment: the detached sibling, now the last piece, goes back under par *)
+    assert (Hmv : exists len, move nr (F1 ++ [k]) [N] (Some (ka :: par))
+                   = MvOk (a ++ t_setk par (del_nth e cur ++ [k]) t :: rest) (track [N] ((ka :: par) ++ [len]))).
+    { unfold move. cbn [fget]. unfold N at 1. rewrite nth_error_app2 by lia. rewrite Nat.sub_diag. cbn [nth_error].
+      cbn [is_prefix]. replace (Nat.eqb N ka) with false by (symmetry; apply Nat.eqb_neq; lia). cbn [andb].
+      assert (Hk2 : fkids (ka :: par) (F1 ++ [k]) = Some (del_nth e cur)).
+      { cbn [fkids]. unfold F1, ka. rewrite <- app_assoc. cbn [app]. rewrite nth_error_mid.
+        unfold T2, t_setk. rewrite tkids_set_kids. eapply fkids_fsetk_self. exact HP. }
+      rewrite Hk2. cbn [parent_ref opt_eqb].
+      rewrite dup_child_false by (intros k' Hk'; eapply nth_error_del_names; eassumption).
+      replace (protected nr [N]) with false by (symmetry; cbn; apply Nat.ltb_ge; unfold N, F1; rewrite app_length; cbn; lia).
+      assert (Hrm : fremove [N] (F1 ++ [k]) = F1) by (cbn [fremove]; apply del_nth_last).
+      rewrite Hrm.
+      assert (Hadj : adj' [N] (ka :: par) = ka :: par).
+      { unfold adj'. cbn [adj]. replace (Nat.eqb ka N) with false by (symmetry; apply Nat.eqb_neq; lia).
+        replace (Nat.ltb N ka) with false by (symmetry; apply Nat.ltb_ge; lia). reflexivity. }
+      rewrite Hadj.
+      assert (Hk3 : fkids (ka :: par) F1 = Some (del_nth e cur)).
+      { cbn [fkids]. unfold F1, ka. rewrite nth_error_mid.
+        unfold T2, t_setk. rewrite tkids_set_kids. eapply fkids_fsetk_self. exact HP. }
+      rewrite Hk3. exists (length (del_nth e cur)). f_equal.
+      cbn [fappend]. unfold F1, ka. rewrite upd_nth_mid. f_equal. f_equal.
+      unfold T2, t_setk. rewrite set_kids_set_kids, tkids_set_kids, fappend_fsetk_self. reflexivity. }
+    destruct Hmv as [len Hmv].
+    match goal with |- context [move ?x1 ?x2 ?x3 ?x4] =>
+      replace (move x1 x2 x3 x4) with
+        (MvOk (a ++ t_setk par (del_nth e cur ++ [k]) t :: rest) (track [N] ((ka :: par) ++ [len])))
+        by (symmetry; exact Hmv) end.
+    cbn beta iota.
+    set (tkB := track [N] ((ka :: par) ++ [len])).
+    assert (HtkB : forall z, tkB (ka :: z) = ka :: z).
+    { intros z. unfold tkB, track. cbn [is_prefix]. replace (Nat.eqb N ka) with false by (symmetry; apply Nat.eqb_neq; lia).
+      cbn [andb]. unfold adj'. cbn [adj]. replace (Nat.eqb ka N) with false by (symmetry; apply Nat.eqb_neq; lia).
+      replace (Nat.ltb N ka) with false by (symmetry; apply Nat.ltb_ge; lia). reflexivity. }
+    rewrite HtkB.
+    destruct (IH (map (adj_idx e) idxs) ltac:(rewrite map_length; exact Hn0)
+                 t rest (del_nth e cur ++ [k]) sibs (fun z => tkB (tkA (trk z))) (tkB (tkA fr)))
+      as [rest' Hgo].
+    + exists P. exact HP.
+    + eapply NoDup_names_move; eassumption.
+    + replace (length (del_nth e cur ++ [k])) with (length cur); [exact Hok|].
+      rewrite app_length. cbn [length]. pose proof (length_del_nth cur e He). lia.
+    + rewrite <- (map_map trk (fun z => tkB (tkA z))), Htrk, !map_map. apply map_ext_in. intros e0 He0.
+      assert (Hne0 : e <> e0) by (intros ->; apply Hnin; exact He0).
+      assert (HA : tkA (ka :: par ++ [e0]) = ka :: par ++ [adj_idx e e0]).
+      { unfold tkA, track. change (ka :: par ++ [e0]) with (ka :: (par ++ [e0])).
+        rewrite is_prefix_cons, Nat.eqb_refl. cbn [andb].
+        rewrite is_prefix_sibling_false by exact Hne0. unfold adj'. rewrite adj_cons_same by exact Hne.
+        pose proof (adj'_sibling par e e0 Hne0) as E. unfold adj' in E.
+        destruct (adj (par ++ [e]) (par ++ [e0])); cbn [option_map]; rewrite E; reflexivity. }
+      fold ka. change (ka :: par ++ [e0]) with (ka :: (par ++ [e0])) in *. rewrite HA. apply HtkB.
+    + exists rest'. exact Hgo.
+Qed.
+
+Ltac lens := repeat (rewrite ?app_length; cbn [length]); rewrite ?app_length.
+
+(* -- the abstract list machine -------------------------------------------------------------------- *)
+
+Lemma map_adj_seq_gt e : forall n a, e < a -> map (adj_idx e) (seq a n) = seq (Nat.pred a) n.
+Proof.
+  induction n as [|n IH]; intros a Ha; [reflexivity|]. cbn [seq map]. unfold adj_idx at 1.
+  replace (Nat.ltb e a) with true by (symmetry; apply Nat.ltb_lt; exact Ha).
+  rewrite IH by lia. destruct a; [lia|reflexivity].
+Qed.
+
+Lemma map_adj_seq_le e : forall n a, a + n <= S e -> map (adj_idx e) (seq a n) = seq a n.
+Proof.
+  induction n as [|n IH]; intros a Ha; [reflexivity|]. cbn [seq map]. unfold adj_idx at 1.
+  replace (Nat.ltb e a) with false by (symmetry; apply Nat.ltb_ge; lia). rewrite IH by lia. reflexivity.
+Qed.
+
+Lemma nth_error_mid2 {A} (a b c : list A) x : nth_error (a ++ b ++ x :: c) (length a + length b) = Some x.
+Proof. rewrite app_assoc, <- app_length. apply nth_error_mid. Qed.
+Lemma del_nth_mid2 {A} (a b c : list A) x : del_nth (length a + length b) (a ++ b ++ x :: c) = a ++ b ++ c.
+Proof. rewrite app_assoc, <- app_length, del_nth_mid, <- app_assoc. reflexivity. Qed.
+
+Lemma mte_ok_nil n : mte_ok n [].
+Proof. exact I. Qed.
+
+Lemma mte_ok_intro n e r : e < n -> ~ In e r -> mte_ok n (map (adj_idx e) r) -> mte_ok n (e :: r).
+Proof. intros H1 H2 H3. unfold mte_ok in *. cbn [length mte_ok_go]. rewrite map_length in H3. auto. Qed.
+
+Lemma mte_seq {A} (L : list A) : forall R E,
+  mte_run (L ++ R ++ E) (seq (length L) (length R)) = L ++ E ++ R
+  /\ mte_ok (length (L ++ R ++ E)) (seq (length L) (length R)).
+Proof.
+  induction R as [|r R IH]; intros E.
+  - cbn. rewrite app_nil_r. split; [reflexivity|exact I].
+  - cbn [length seq]. assert (Hn : nth_error (L ++ (r :: R) ++ E) (length L) = Some r) by apply nth_error_mid.
+    destruct (IH (E ++ [r])) as [H1 H2]. split.
+    + rewrite (mte_run_cons _ _ _ _ Hn). cbn [app]. rewrite del_nth_mid.
+      rewrite map_adj_seq_gt by lia. cbn [Nat.pred]. rewrite <- !app_assoc. rewrite <- !app_assoc in H1.
+      rewrite H1. reflexivity.
+    + apply mte_ok_intro.
+      * lens. lia.
+      * intros Hin. apply in_seq in Hin. lia.
+      * rewrite map_adj_seq_gt by lia. cbn [Nat.pred].
+        match goal with |- mte_ok ?n0 _ => replace n0 with (length (L ++ R ++ E ++ [r])) by (lens; lia) end. exact H2.
+Qed.
+
+(* the replacing node was itself a right sibling: after its first move it sits at the end (F), the right
+   siblings before it are R1, those behind it M; Dn have already been re-appended *)
+Lemma mte_right_sibling {A} (L M : list A) (F : A) : forall R1 Dn,
+  let idxs := seq (length L) (length R1) ++ (length L + length R1 + length M) :: seq (length L + length R1) (length M) in
+  mte_run (L ++ R1 ++ M ++ [F] ++ Dn) idxs = L ++ Dn ++ R1 ++ [F] ++ M
+  /\ mte_ok (length (L ++ R1 ++ M ++ [F] ++ Dn)) idxs.
+Proof.
+  induction R1 as [|r R1 IH]; intros Dn idxs; unfold idxs; clear idxs.
+  - cbn [length seq app]. rewrite !Nat.add_0_r.
+    assert (Hn : nth_error (L ++ M ++ F :: Dn) (length L + length M) = Some F) by apply nth_error_mid2.
+    destruct (mte_seq L M (Dn ++ [F])) as [H1 H2]. split.
+    + rewrite (mte_run_cons _ _ _ _ Hn). rewrite del_nth_mid2.
+      rewrite map_adj_seq_le by lia. rewrite <- !app_assoc. rewrite <- !app_assoc in H1. rewrite H1. reflexivity.
+    + apply mte_ok_intro.
+      * lens. lia.
+      * intros Hin. apply in_seq in Hin. lia.
+      * rewrite map_adj_seq_le by lia.
+        match goal with |- mte_ok ?n0 _ => replace n0 with (length (L ++ M ++ Dn ++ [F])) by (lens; lia) end. exact H2.
+  - cbn [length seq app].
+    assert (Hn : nth_error (L ++ r :: R1 ++ M ++ [F] ++ Dn) (length L) = Some r) by apply nth_error_mid.
+    destruct (IH (Dn ++ [r])) as [H1 H2]. split.
+    + rewrite (mte_run_cons _ _ _ _ Hn). rewrite del_nth_mid.
+      rewrite map_app. cbn [map]. rewrite !map_adj_seq_gt by lia. cbn [Nat.pred].
+      unfold adj_idx at 1. replace (Nat.ltb (length L) (length L + S (length R1) + length M)) with true
+        by (symmetry; apply Nat.ltb_lt; lia).
+      replace (Nat.pred (length L + S (length R1) + length M)) with (length L + length R1 + length M) by lia.
+      replace (Nat.pred (length L + S (length R1))) with (length L + length R1) by lia.
+      rewrite <- !app_assoc. cbn [app]. rewrite <- !app_assoc in H1. cbn [app] in H1. rewrite H1. reflexivity.
+    + apply mte_ok_intro.
+      * lens. lia.
+      * intros Hin. apply in_app_or in Hin as [Hin|[Hin|Hin]]; [apply in_seq in Hin; lia|lia|apply in_seq in Hin; lia].
+      * rewrite map_app. cbn [map]. rewrite !map_adj_seq_gt by lia. cbn [Nat.pred].
+        unfold adj_idx at 1. replace (Nat.ltb (length L) (length L + S (length R1) + length M)) with true
+          by (symmetry; apply Nat.ltb_lt; lia).
+        replace (Nat.pred (length L + S (length R1) + length M)) with (length L + length R1 + length M) by lia.
+        replace (Nat.pred (length L + S (length R1))) with (length L + length R1) by lia.
+        match goal with |- mte_ok ?n0 _ => replace n0 with (length (L ++ R1 ++ M ++ [F] ++ Dn ++ [r])) by (lens; lia) end. exact H2.
+Qed.
+
+(* -- shift_and_replace_nodes when the replacing node is a sibling of the replaced one ------------- *)
+
+Lemma dup_child_skip (cur : list tree) : forall e k i0,
+  NoDup (map tname cur) -> nth_error cur e = Some k -> dup_child (tname k) (Some (i0 + e)) i0 cur = false.
+Proof.
+  induction cur as [|c cur IH]; intros e k i0 Hn He; [reflexivity|]. cbn [map] in Hn.
+  inversion Hn as [|? ? Hnotin Hn']; subst. cbn [dup_child]. destruct e as [|e]; cbn in He.
+  - inversion He; subst. rewrite Nat.add_0_r. cbn [opt_eqb]. rewrite Nat.eqb_refl. cbn [negb]. rewrite andb_false_r.
+    cbn [orb]. apply dup_child_false. intros k' Hk' E. apply Hnotin. rewrite <- E. apply in_map. exact Hk'.
+  - replace (str_eqb (tname c) (tname k)) with false.
+    + cbn [andb orb]. replace (i0 + S e) with (S i0 + e) by lia. apply IH; assumption.
+    + symmetry. apply str_eqb_neq. intros E. apply Hnotin. rewrite E. apply in_map. eapply nth_error_In. exact He.
+Qed.
+
+Lemma removelast_snoc_cons {A} (a : A) l x : removelast (a :: l ++ [x]) = a :: l.
+Proof. change (a :: l ++ [x]) with ((a :: l) ++ [x]). apply removelast_last. Qed.
+
+Lemma last_snoc_cons {A} (a : A) l x d : last (a :: l ++ [x]) d = x.
+Proof. change (a :: l ++ [x]) with ((a :: l) ++ [x]). apply last_last. Qed.
+
+Lemma ref_eqb_refl r : ref_eqb r r = true.
+Proof. unfold ref_eqb. induction r; cbn; [reflexivity|]. rewrite Nat.eqb_refl. exact IHr. Qed.
+
+(* x.parent = x.parent: the node becomes the last child *)
+Lemma move_same_parent nr a par (t : tree) rest cur e k :
+  (exists P, tpath t par = Some P) -> NoDup (map tname cur) -> nth_error cur e = Some k ->
+  move nr (a ++ t_setk par cur t :: rest) (length a :: par ++ [e]) (Some (length a :: par))
+  = MvOk (a ++ t_setk par (del_nth e cur ++ [k]) t :: rest)
+         (track (length a :: par ++ [e]) ((length a :: par) ++ [length (del_nth e cur)])).
+Proof.
+  intros [P HP] Hnd Hk. set (T1 := t_setk par cur t).
+  assert (Hne : par ++ [e] <> []) by (destruct par; discriminate).
+  unfold move. change ((length a) :: par ++ [e]) with ((length a) :: (par ++ [e])).
+  rewrite fget_piece by exact Hne. unfold T1, t_setk. rewrite tkids_set_kids.
+  rewrite (fget_fsetk_child par _ cur e _ _ HP), Hk.
+  rewrite is_prefix_cons, Nat.eqb_refl. cbn [andb]. rewrite (is_prefix_child_false par par e (or_intror eq_refl)).
+  assert (Hk1 : fkids ((length a) :: par) (a ++ set_kids t (fsetk par cur (tkids t)) :: rest) = Some cur).
+  { cbn [fkids]. rewrite nth_error_mid, tkids_set_kids. eapply fkids_fsetk_self. exact HP. }
+  rewrite Hk1.
+  assert (Hpr : parent_ref ((length a) :: (par ++ [e])) = Some ((length a) :: par)).
+  { unfold parent_ref. destruct (par ++ [e]) eqn:E; [congruence|]. rewrite <- E. rewrite removelast_snoc_cons. reflexivity. }
+  rewrite Hpr. cbn [opt_eqb]. rewrite ref_eqb_refl. rewrite last_snoc_cons.
+  pose proof (dup_child_skip cur e k 0 Hnd Hk) as Hdup. cbn [Nat.add] in Hdup. rewrite Hdup.
+  replace (protected nr ((length a) :: (par ++ [e]))) with false by (destruct (par ++ [e]); [congruence|reflexivity]).
+  fold (t_setk par cur t). fold T1. rewrite fremove_piece by exact Hne.
+  assert (HT2 : t_remove (par ++ [e]) T1 = t_setk par (del_nth e cur) t).
+  { unfold t_remove, T1, t_setk. rewrite set_kids_set_kids, tkids_set_kids, fremove_fsetk_child. reflexivity. }
+  rewrite HT2.
+  assert (Hadj : adj' ((length a) :: (par ++ [e])) ((length a) :: par) = (length a) :: par).
+  { unfold adj'. rewrite adj_cons_same by exact Hne.
+    pose proof (adj'_child_removed par par e (or_intror eq_refl)) as E. unfold adj' in E.
+    destruct (adj (par ++ [e]) par); cbn [option_map]; [rewrite E|]; reflexivity. }
+  rewrite Hadj.
+  assert (Hk2 : fkids ((length a) :: par) (a ++ t_setk par (del_nth e cur) t :: rest) = Some (del_nth e cur)).
+  { cbn [fkids]. rewrite nth_error_mid. unfold t_setk. rewrite tkids_set_kids.
+    eapply fkids_fsetk_self. exact HP. }
+  rewrite Hk2. f_equal. cbn [fappend]. rewrite upd_nth_mid. f_equal. f_equal.
+  unfold t_setk. rewrite set_kids_set_kids, tkids_set_kids, fappend_fsetk_self. reflexivity.
+Qed.
+
+Record plain_replace (c : cfg) : Prop := {
+  pr_copy : c_copy c = false;
+  pr_two : c_two c = false;
+  pr_dc : f_dc (c_fl c) = false }.
+
+(* the frame of rp_core when nothing is copied or deleted: the loop starts at the replaced node *)
+Lemma rp_core_unfold c (t : tree) p par i ks :
+  plain_replace c -> ref_eqb (0 :: p) (0 :: par ++ [i]) = false -> fkids par (tkids t) = Some ks ->
+  rp_core c [t] (0 :: p) (0 :: par ++ [i])
+  = rp_loop (nroots c) [t] true (map (fun j => (0 :: par) ++ [j]) (seq i (length ks - i))) (fun z => z) (0 :: p) (0 :: par).
+Proof.
+  intros [Hc Htwo Hdc] Hne Hks. unfold rp_core. rewrite Hne, Hc, Hdc. cbn beta iota.
+  assert (Hpr : parent_ref (0 :: par ++ [i]) = Some (0 :: par)).
+  { unfold parent_ref. destruct (par ++ [i]) eqn:E; [destruct par; discriminate|]. rewrite <- E.
+    rewrite removelast_snoc_cons. reflexivity. }
+  rewrite Hpr. rewrite fkids_cons0, Hks. rewrite last_snoc_cons. reflexivity.
+Qed.
+
+Lemma sibling_refs_neq par i j : i <> j -> ref_eqb (0 :: par ++ [j]) (0 :: par ++ [i]) = false.
+Proof.
+  intros H. destruct (ref_eqb (0 :: par ++ [j]) (0 :: par ++ [i])) eqn:E; [|reflexivity].
+  assert (0 :: par ++ [j] = 0 :: par ++ [i]).
+  { unfold ref_eqb in E. revert E. generalize (0 :: par ++ [j]) (0 :: par ++ [i]).
+    induction l as [|x l IH]; intros [|y l'] E; cbn in E; try discriminate; [reflexivity|].
+    apply andb_true_iff in E as [E1 E2]. apply Nat.eqb_eq in E1. subst. f_equal. apply IH. exact E2. }
+  inversion H0 as [H1]. apply app_inj_tail in H1 as [_ H1]. congruence.
+Qed.
+
+Lemma track_self x nx : track x nx x = nx.
+Proof. unfold track. rewrite is_prefix_refl, skipn_all. apply app_nil_r. Qed.
+
+Lemma track_sibling0 par e nx e' : e <> e' ->
+  track (0 :: par ++ [e]) nx (0 :: par ++ [e']) = 0 :: par ++ [adj_idx e e'].
+Proof.
+  intros Hne. change (0 :: par ++ [e]) with (0 :: (par ++ [e])). change (0 :: par ++ [e']) with (0 :: (par ++ [e'])).
+  rewrite track_cons0; [|destruct par; discriminate|apply is_prefix_sibling_false; exact Hne].
+  rewrite adj'_sibling by exact Hne. reflexivity.
+Qed.
+
+Lemma track_parent0 par e nx : track (0 :: par ++ [e]) nx (0 :: par) = 0 :: par.
+Proof.
+  change (0 :: par ++ [e]) with (0 :: (par ++ [e])).
+  rewrite track_cons0; [|destruct par; discriminate|apply is_prefix_child_false; right; reflexivity].
+  rewrite adj'_child_removed by (right; reflexivity). reflexivity.
+Qed.
+
+(* DESIGN.md "C08_replace_position", the replacing node F is a RIGHT sibling of the replaced node D
+   (children of their parent: L ++ D :: R1 ++ F :: R2): D is detached, F is re-appended twice and every
+   other right sibling once — F ends up where it was; the result is simply the tree without D. *)
+Theorem replace_right_sibling c t par L D R1 F R2 :
+  plain_replace c -> (exists P, tpath t par = Some P) ->
+  fkids par (tkids t) = Some (L ++ D :: R1 ++ F :: R2) -> NoDup (map tname (L ++ D :: R1 ++ F :: R2)) ->
+  exists rest,
+    rp_core c [t] (0 :: par ++ [length L + S (length R1)]) (0 :: par ++ [length L])
+    = (t_remove (par ++ [length L]) t :: rest, None).
+Proof.
+  intros Hpr HP Hks Hnd. set (j := length L + S (length R1)). set (i := length L) in |- * at 1.
+  assert (Hij : j <> i) by (unfold i, j; lia).
+  rewrite (rp_core_unfold c t (par ++ [j]) par i _ Hpr (sibling_refs_neq par i j (not_eq_sym Hij)) Hks).
+  assert (Hlen : length (L ++ D :: R1 ++ F :: R2) - i = S (length R1 + S (length R2))) by (unfold i; lens; lia).
+  rewrite Hlen. cbn [seq map rp_loop].
+  assert (Ht : t = t_setk par (L ++ D :: R1 ++ F :: R2) t) by (symmetry; apply t_setk_id; exact Hks).
+  set (nr := nroots c).
+  (* D.parent = None *)
+  assert (HgD : tget t (par ++ [i]) = Some D).
+  { unfold tget. eapply fget_snoc; [exact Hks|]. unfold i. apply nth_error_mid. }
+  pose proof (detach_in_tree nr t [] (par ++ [i]) D ltac:(destruct par; discriminate) HgD) as Hm1.
+  change ((0 :: par) ++ [i]) with (0 :: par ++ [i]).
+  match goal with |- context [move ?x1 ?x2 ?x3 None] =>
+    replace (move x1 x2 x3 None) with (MvOk ((t_remove (par ++ [i]) t :: []) ++ [D]) (track (0 :: par ++ [i]) [1]))
+      by (symmetry; exact Hm1) end.
+  cbn [app]. cbn beta iota.
+  assert (Hta : t_remove (par ++ [i]) t = t_setk par (L ++ R1 ++ F :: R2) t).
+  { rewrite Ht at 1. unfold t_remove, t_setk. rewrite set_kids_set_kids, tkids_set_kids, fremove_fsetk_child.
+    unfold i. rewrite del_nth_mid. reflexivity. }
+  rewrite Hta.
+  rewrite (track_sibling0 par i [1] j (not_eq_sym Hij)), track_parent0.
+  assert (Hj' : adj_idx i j = length L + length R1).
+  { unfold adj_idx, i, j. replace (Nat.ltb (length L) (length L + S (length R1))) with true
+      by (symmetry; apply Nat.ltb_lt; lia). lia. }
+  rewrite Hj'.
+  (* F.parent = parent *)
+  assert (Hnd1 : NoDup (map tname (L ++ R1 ++ F :: R2))).
+  { rewrite map_app in Hnd. cbn [map] in Hnd. apply NoDup_remove_1 in Hnd. rewrite <- map_app in Hnd. exact Hnd. }
+  pose proof (move_same_parent nr [] par t [D] (L ++ R1 ++ F :: R2) (length L + length R1) F HP Hnd1
+                (nth_error_mid2 L R1 R2 F)) as Hm2.
+  cbn [app length] in Hm2. rewrite del_nth_mid2 in Hm2.
+  match goal with |- context [move ?x1 ?x2 ?x3 ?x4] =>
+    replace (move x1 x2 x3 x4) with
+      (MvOk [t_setk par ((L ++ R1 ++ R2) ++ [F]) t; D]
+            (track (0 :: par ++ [length L + length R1]) ((0 :: par) ++ [length (L ++ R1 ++ R2)])))
+      by (symmetry; exact Hm2) end.
+  cbn beta iota.
+  set (tk1 := track (0 :: par ++ [i]) [1]).
+  set (tk2 := track (0 :: par ++ [length L + length R1]) ((0 :: par) ++ [length (L ++ R1 ++ R2)])).
+  assert (Hpar2 : tk2 (0 :: par) = 0 :: par) by apply track_parent0.
+  rewrite Hpar2.
+  (* the remaining right siblings *)
+  destruct (mte_right_sibling L R2 F R1 []) as [Hrun Hok]. cbn zeta in Hrun, Hok.
+  rewrite app_nil_r in Hrun, Hok. cbn [app] in Hrun.
+  replace ((L ++ R1 ++ R2) ++ [F]) with (L ++ R1 ++ R2 ++ [F]) by (rewrite <- !app_assoc; reflexivity).
+  destruct (rp_tail nr [] par ltac:(unfold nr, nroots; rewrite (pr_two _ Hpr); cbn; lia)
+              (seq (length L) (length R1) ++ (length L + length R1 + length R2) :: seq (length L + length R1) (length R2))
+              t [D] (L ++ R1 ++ R2 ++ [F])
+              (map (fun j0 => (0 :: par) ++ [j0]) (seq (S i) (length R1 + S (length R2))))
+              (fun z => tk2 (tk1 z)) (tk2 (tk1 (0 :: par ++ [j]))) HP) as [rest' Hgo].
+  - replace (L ++ R1 ++ R2 ++ [F]) with (del_nth (length L + length R1) (L ++ R1 ++ F :: R2) ++ [F])
+      by (rewrite del_nth_mid2, <- !app_assoc; reflexivity).
+    eapply NoDup_names_move; [apply nth_error_mid2|exact Hnd1].
+  - exact Hok.
+  - rewrite !map_map. rewrite seq_app. cbn [seq]. rewrite !map_app. cbn [map]. f_equal; [|f_equal].
+    + rewrite <- (map_map (fun x => x) (fun e => 0 :: par ++ [e])), map_id.
+      rewrite <- seq_shift, !map_map. apply map_ext_in. intros m Hm. apply in_seq in Hm.
+      change ((0 :: par) ++ [S i + m]) with (0 :: par ++ [S i + m]). unfold tk1, tk2.
+      rewrite (track_sibling0 par i [1] (S i + m)) by lia.
+      assert (E1 : adj_idx i (S i + m) = i + m).
+      { unfold adj_idx. replace (Nat.ltb i (S i + m)) with true by (symmetry; apply Nat.ltb_lt; lia). lia. }
+      rewrite E1. rewrite track_sibling0 by (unfold i; lia). unfold adj_idx, i.
+      replace (Nat.ltb (length L + length R1) (length L + m)) with false by (symmetry; apply Nat.ltb_ge; lia).
+      reflexivity.
+    + change ((0 :: par) ++ [S i + length R1]) with (0 :: par ++ [S i + length R1]). unfold tk1, tk2.
+      rewrite (track_sibling0 par i [1] (S i + length R1)) by lia.
+      assert (E1 : adj_idx i (S i + length R1) = length L + length R1).
+      { unfold adj_idx, i. replace (Nat.ltb (length L) (S (length L) + length R1)) with true
+          by (symmetry; apply Nat.ltb_lt; lia). lia. }
+      rewrite E1, track_self. cbn [app]. f_equal. f_equal. f_equal. lens. lia.
+    + rewrite <- seq_shift, !map_map.
+      replace (seq (length L + length R1) (length R2)) with (map (fun m => length L + length R1 + m) (seq 0 (length R2))).
+      2: { clear. generalize (length L + length R1). intros b. induction (length R2) as [|n IHn] using nat_ind; [reflexivity|].
+           rewrite seq_S, map_app, IHn. cbn. rewrite seq_S. reflexivity. }
+      replace (seq (S i + length R1) (length R2)) with (map (fun m => S i + length R1 + m) (seq 0 (length R2))).
+      2: { clear. generalize (S i + length R1). intros b. induction (length R2) as [|n IHn] using nat_ind; [reflexivity|].
+           rewrite seq_S, map_app, IHn. cbn. rewrite seq_S. reflexivity. }
+      rewrite !map_map. apply map_ext_in. intros m Hm.
+      change ((0 :: par) ++ [S (S i + length R1 + m)]) with (0 :: par ++ [S (S i + length R1 + m)]). unfold tk1, tk2.
+      rewrite (track_sibling0 par i [1]) by lia.
+      assert (E1 : adj_idx i (S (S i + length R1 + m)) = S (i + length R1 + m)).
+      { unfold adj_idx. replace (Nat.ltb i (S (S i + length R1 + m))) with true by (symmetry; apply Nat.ltb_lt; lia). lia. }
+      rewrite E1. rewrite track_sibling0 by (unfold i; lia). unfold adj_idx, i.
+      replace (Nat.ltb (length L + length R1) (S (length L + length R1 + m))) with true by (symmetry; apply Nat.ltb_lt; lia).
+      reflexivity.
+  - exists rest'. cbn [app length] in Hgo.
+    change ((0 :: par) ++ [j]) with (0 :: par ++ [j]).
+    match goal with |- ?lhs = _ => match type of Hgo with ?lhs' = _ => replace lhs with lhs' by reflexivity end end.
+    rewrite Hgo, Hrun. cbn [app]. reflexivity.
 Qed.
